@@ -16,12 +16,35 @@ REPO = "/repo"
 COQ = os.path.join(VERIF, "coq")
 OCAML = os.path.join(VERIF, "ocaml")
 HARNESS = os.path.join(VERIF, "harness")
+WITNESS = os.path.join(VERIF, "witness")
 CACHE = os.path.join(VERIF, ".cache")
 TARGET = os.path.join(CACHE, "target")
 WORK = os.path.join(CACHE, "work")
 EVIDENCE = os.path.join(VERIF, "evidence")
 REPLAY = os.path.join(VERIF, "replay")
 GUARD = "desert_verif"
+
+# Development aid (seeded changes are evaluated several at a time): VERIF_REPO=<worktree of /repo> runs a check
+# against that tree instead of /repo, with its own copies of the harness and witness crates (path dependencies
+# rewritten), its own cargo target, work, evidence and replay directories under .cache/alt/<name>/.  The registered
+# commands never set it: they run against /repo and write /verif/evidence.
+_ALT = os.environ.get("VERIF_REPO")
+if _ALT and os.path.realpath(_ALT) != "/repo":
+    REPO = os.path.realpath(_ALT)
+    _base = os.path.join(CACHE, "alt", re.sub(r"[^A-Za-z0-9]+", "_", REPO).strip("_"))
+    for _name in ("harness", "witness"):
+        _src, _dst = os.path.join(VERIF, _name), os.path.join(_base, _name)
+        shutil.copytree(_src, _dst, dirs_exist_ok=True, ignore=shutil.ignore_patterns("target", "Cargo.lock"))
+        _toml = os.path.join(_dst, "Cargo.toml")
+        _t = open(_toml).read().replace('"/repo/', '"' + REPO + '/')
+        if _t != open(_toml).read():
+            open(_toml, "w").write(_t)
+    HARNESS, WITNESS = os.path.join(_base, "harness"), os.path.join(_base, "witness")
+    TARGET, WORK = os.path.join(_base, "target"), os.path.join(_base, "work")
+    EVIDENCE, REPLAY = os.path.join(_base, "evidence"), os.path.join(_base, "replay")
+    for _d in (WORK, EVIDENCE, REPLAY):
+        os.makedirs(_d, exist_ok=True)
+TBASE = os.path.dirname(TARGET)     # further cargo target directories live next to the harness's
 
 FORBIDDEN = re.compile(
     r"\b(Admitted|admit|Axiom|Axioms|Parameter|Parameters|Conjecture|Conjectures|"
